@@ -192,3 +192,14 @@ Definition gen_stream_id (chunk bs : Z) (old new : list Z) : option (list op) :=
 Definition stream_chunk (bs : Z) : Z := Z.max CHUNK_SIZE bs.
 Definition gen_stream_impl (bs : Z) (old new : list Z) : option (list op) :=
   gen_stream_id (stream_chunk bs) bs old new.
+
+(* delta/mod.rs calculate_block_size: `let size = (file_size as f64).sqrt() as usize; size.clamp(MIN, MAX)`.
+   The binary64 square root is NOT modelled: `root` stands for whatever `usize` the cast yields (`as usize`
+   saturates, so it is some integer >= 0 -- the theorems below need not even that); the clamp is the code's
+   (anchor BLOCK_SIZE_IS_CLAMPED; transport/ssh.rs takes its block size from here: SSH_BLOCK_FROM_CLAMP). *)
+Definition clamp (lo hi v : Z) : Z := if v <? lo then lo else if hi <? v then hi else v.
+Definition calculate_block_size (root : Z) : Z := clamp MIN_BLOCK MAX_BLOCK root.
+(* executable stand-in used by the correspondence check only: the integer square root in place of the binary64
+   one (they agree wherever the clamp does not hide the difference: that is what the `B` cases compare with the
+   real function over file sizes of every magnitude, perfect squares and their neighbours included) *)
+Definition block_size_for (file_size : Z) : Z := calculate_block_size (Z.sqrt file_size).
